@@ -234,6 +234,12 @@ func genC08(g *gen) {
 		}
 		g.emit("%s", c08History(g, kind, drops, g.thorough() && i%8 == 0, i%3 == 2 && kind != "tags"))
 	}
+	// large values in the command stream (cycle: 35+70029+… bytes, see c08CmdsL); cuts before, inside and after them
+	g.emit("tagl 1000 - abcd 0 w,p300,s20,q,p300,s70100,q,p300,s1048800,q,p300,d,p300,s150,q")
+	g.emit("tagl 0 - abcd 0 w,p300,s50000,q,p300,d,p300,s30000,q,p300,s600000,q,p300,x,p300,s500000,q,p300,s300,q")
+	if g.thorough() {
+		g.emit("tagl 987654321 - abcd 0 w,p300,s1118900,q,p300,D70200,q,p300,s1048700,q,p300,d,p300,s1200000,q")
+	}
 	if g.thorough() {
 		// retry exhaustion: the 4th broken connection within the hour aborts the process (log.Panicf)
 		g.emit("inc 77 - abcd 0 w,p300,s10,d,p300,s10,d,p300,s10,d,p300,s10,q,p300,d")
@@ -260,9 +266,23 @@ var c08Cmds = []string{
 }
 var c08CmdStream = strings.Join(c08Cmds, "")
 
+// the stream of the `tagl` histories: the same with two large values (beyond 64 KiB, beyond 1 MiB) in the cycle
+var c08CmdsL = func() []string {
+	big := func(n int) string {
+		b := make([]byte, n)
+		for i := range b {
+			b[i] = byte(i*13 + i/256)
+		}
+		return fmt.Sprintf("*3\r\n$3\r\nset\r\n$3\r\nbig\r\n$%d\r\n%s\r\n", n, b)
+	}
+	return []string{c08Cmds[0], big(c08BigA), c08Cmds[1], c08Cmds[2], big(c08BigB), c08Cmds[3]}
+}()
+
+const c08BigA, c08BigB = 70001, 1048601
+
 // number of complete commands among the first n stream bytes (used only to know when to stop waiting)
-func c08CompleteCmds(n int) int {
-	L := len(c08CmdStream)
+func c08CompleteCmds(c08Cmds []string, n int) int {
+	L := len(strings.Join(c08Cmds, ""))
 	k := (n / L) * len(c08Cmds)
 	rem := n % L
 	for _, c := range c08Cmds {
@@ -438,6 +458,10 @@ func c08RunHistory(f []string) string {
 		return "badcase"
 	}
 	kind := f[0]
+	c08Cmds, c08CmdStream := c08Cmds, c08CmdStream
+	if kind == "tagl" {
+		kind, c08Cmds, c08CmdStream = "tags", c08CmdsL, strings.Join(c08CmdsL, "")
+	}
 	in, err1 := strconv.ParseInt(f[1], 10, 64)
 	runid := f[3]
 	rdb, err2 := strconv.Atoi(f[4])
@@ -565,7 +589,7 @@ func c08RunHistory(f []string) string {
 	drained := func() func() bool {
 		want := delivered()
 		if kind == "tags" {
-			n := c08CompleteCmds(want)
+			n := c08CompleteCmds(c08Cmds, want)
 			return func() bool { return len(s.tags) >= n || s.pipeEOF }
 		}
 		return func() bool { return s.pipeN >= want || s.pipeEOF }
